@@ -13,6 +13,7 @@ import Orda.Proofs.DocNet
 import Orda.Proofs.ListNet
 import Orda.Proofs.MapNet
 import Orda.Proofs.DocNetCreate
+import Orda.Proofs.FlatNetCreate
 namespace Orda.Props.C01
 open Orda
 
@@ -329,5 +330,52 @@ theorem doc_call_before_first_pull_diverges :
       (net.nodes.map fun nd => (Ex.docOf nd.r).view.canon == .obj []) = [false, true] ∧
       (runC (initC Ex.cu 2) badActs).isSome = false :=
   call_before_first_pull_diverges
+
+open Orda.FNetC in
+/-- LIST, with the creating client and its snapshot operation in the log: at quiescence all replicas hold the SAME list state -/
+theorem list_created_net_quiescent_replicas_agree {cuid : Nat → String} {n : Nat} (net : LNet.Net) (h : L.ReachC cuid n net)
+    (hq : LNet.Quiescent net) (i j : Nat) (hi : i < net.nodes.length) (hj : j < net.nodes.length) :
+    net.nodes[i].r.state = net.nodes[j].r.state :=
+  created_list_net_quiescent_converged net h hq i j hi hj
+
+open Orda.FNetC in
+/-- LIST: … and at every moment two nodes with the same operations hold the same state -/
+theorem list_created_net_same_operations_same_state {cuid : Nat → String} {n : Nat} (net : LNet.Net) (h : L.ReachC cuid n net)
+    (i j : Nat) (hi : i < net.nodes.length) (hj : j < net.nodes.length) (hso : LNet.SameOps net i j) :
+    net.nodes[i].r.state = net.nodes[j].r.state :=
+  created_list_net_same_operations_same_state net h i j hi hj hso
+
+open Orda.FNetC in
+/-- MAP, with the creating client: at quiescence creator and subscribers answer every read alike -/
+theorem map_created_net_quiescent_replicas_agree {cuid : Nat → String} {n : Nat} (net : MNet.Net) (h : M.ReachC .map cuid n net)
+    (hq : MNet.Quiescent net) (i j : Nat) (hi : i < net.nodes.length) (hj : j < net.nodes.length) (mi mj : LwwMap)
+    (hmi : net.nodes[i].r.state = .map mi) (hmj : net.nodes[j].r.state = .map mj) :
+    (∀ k, mi.get k = mj.get k) ∧ mi.size = mj.size ∧
+    (∀ k, alFind k mi.live = alFind k mj.live) ∧ mi.live.Perm mj.live ∧ MNet.sortedView mi = MNet.sortedView mj ∧
+    MNet.jsonView mi = MNet.jsonView mj :=
+  created_map_net_quiescent_converged net h hq i j hi hj mi mj hmi hmj
+
+open Orda.FNetC in
+/-- COUNTER, with the creating client: at quiescence all replicas hold the same value, the wrapped sum of all increments in the log -/
+theorem counter_created_net_quiescent_replicas_agree {cuid : Nat → String} {n : Nat} (net : MNet.Net)
+    (h : M.ReachC .counter cuid n net) (hq : MNet.Quiescent net) (i j : Nat) (hi : i < net.nodes.length) (hj : j < net.nodes.length) :
+    net.nodes[i].r.state = net.nodes[j].r.state ∧
+    net.nodes[i].r.state = DState.counter (Spec.counter (net.log.map (·.2))) :=
+  created_counter_net_quiescent_converged net h hq i j hi hj
+
+open Orda.FNetC in
+/-- the delivery of a creation snapshot operation REPLACES the state of a flat datatype too … -/
+theorem flat_snapshot_delivery_resets_state :
+    execRemote (.counter 5) ⟨0, 1, "a", 0⟩ (.snapshot (DState.fresh .counter)) = .ok (.counter 0) ∧
+    (∀ m, execRemote (.map m) ⟨0, 1, "a", 0⟩ (.snapshot (DState.fresh .map)) = .ok (.map LwwMap.empty)) ∧
+    (∀ l, execRemote (.list l) ⟨0, 1, "a", 0⟩ (.snapshot (DState.fresh .list)) = .ok (.list Rga.empty)) :=
+  snapshot_delivery_resets_flat_state
+
+open Orda.FNetC in
+/-- … which is why a subscriber is usable only after its first sync: an increase issued before is lost (creator 7, subscriber 0) -/
+theorem counter_call_before_first_pull_diverges :
+    ∃ net, (M.initC .counter cu 2).run badCounter = some net ∧ MNet.Quiescent net ∧
+      net.nodes.map (fun nd => ExCounter.valOf nd.r) = [7, 0] ∧ (M.runC (M.initC .counter cu 2) badCounter).isSome = false :=
+  FNetC.counter_call_before_first_pull_diverges
 
 end Orda.Props.C01
